@@ -23,9 +23,11 @@ import (
 const pageSz = 4096
 
 var (
-	c8On    bool
-	c8Snaps []string // raw copies of F's database at commit boundaries
-	c8Cfg   resetParams
+	c8On         bool
+	c8Snaps      []string // raw copies of F's database at commit boundaries
+	c8SnapCommit []int    // number of commits of F's database contained in each snapshot
+	c8Commits    int
+	c8Cfg        resetParams
 )
 
 func copyRaw(src, dst string) error {
@@ -53,18 +55,27 @@ func c8Snapshot() {
 		panic("harness: snapshot: " + err.Error())
 	}
 	c8Snaps = append(c8Snaps, dst)
+	c8SnapCommit = append(c8SnapCommit, c8Commits)
+}
+
+// c8Adjacent: exactly one commit lies between snapshot k and snapshot k+1
+func c8Adjacent(k int) bool {
+	return k+1 < len(c8Snaps) && c8SnapCommit[k+1] == c8SnapCommit[k]+1
 }
 
 // commit hook: a raw copy of F's file after every successful db.Update (commit boundary)
 func c8Hook(db *dbutil.DB, name string, err error) {
-	if !c8On || world == nil || err != nil {
+	if world == nil || err != nil {
 		return
 	}
 	f := world.nodes["F"]
 	if f == nil || db.Path() != f.path {
 		return
 	}
-	c8Snapshot()
+	c8Commits++
+	if c8On {
+		c8Snapshot()
+	}
 }
 
 // c8Begin builds the world like reset does, with a snapshot of F's database at every commit:
@@ -77,7 +88,7 @@ func c8Begin(rp resetParams) (string, error) {
 		return "", err
 	}
 	c8Cfg = rp
-	c8Snaps = nil
+	c8Snaps, c8SnapCommit, c8Commits = nil, nil, 0
 	old := w.nodes["F"]
 	old.db.Close()
 	os.Remove(old.path)
@@ -111,8 +122,8 @@ func buildCrashFile(k int, variant string, dst string) error {
 	if variant == "full" {
 		return os.WriteFile(dst, a, 0o600)
 	}
-	if k+1 >= len(c8Snaps) {
-		return fmt.Errorf("no next commit for variant %s", variant)
+	if !c8Adjacent(k) {
+		return fmt.Errorf("no single next commit for variant %s", variant)
 	}
 	b, err := os.ReadFile(c8Snaps[k+1])
 	if err != nil {
@@ -183,6 +194,11 @@ func c8Fork(k int, variant string) string {
 	}
 	ch := make(chan res, 1)
 	go func() {
+		defer func() {
+			if r := recover(); r != nil {
+				ch <- res{nil, fmt.Errorf("panic: %v", r), nil}
+			}
+		}()
 		db, err := visor.OpenDB(path, false)
 		if err != nil {
 			ch <- res{nil, err, nil}
